@@ -13,6 +13,19 @@ A_STD1 = 'A-STD1: AsRef<..>::as_ref of the argument types is a pure view'
 A_MEM = 'A-MEM: side conditions `rows * columns <= usize::MAX` / `length + C + 32 <= usize::MAX` (addressable memory) appear as preconditions'
 
 PROPS = {
+    'C02': {
+        'verus': ['scan', 'pwm_score', 'score_u8', 'maxthr'],
+        'kani': [],
+        'native': True,
+        'assumptions': [A_E1, A_T1, A_GA1, A_DENSE, A_STD1,
+                        'A-DISP1..3: the runtime-dispatched u8 pipeline (Pipeline<A, Dispatch>::{score_rows_into, max, threshold}) satisfies the saturated-sum / max / threshold contracts: proved for the generic arm modulo u8 overflow (finding D5), bounded Kani stand-in for the AVX2 arm',
+                        'A-F4 / C08: the 8-bit image never under-estimates (hypothesis `cfg.ok()`): a hit reaches the byte threshold - assumed, not proved (float rounding of to_discrete / scale)',
+                        'A-F: window sums of matrices with finite or -inf cells are never NaN (hypothesis of Hit::new)',
+                        'A-F2: f32 comparison operators are the ones partial_cmp induces',
+                        'machine arithmetic: rows + 2*block_size <= usize::MAX is a precondition',
+                        'the Python entry point lightmotif.scan is C17 (not applicable)'],
+        'explanation': 'Scanner::next on its verbatim body against an abstract state: pending = buffered hits + hits in rows not yet scanned. Each call removes exactly one pending position (returned with its exact score) or returns None when nothing is pending; so by induction iterating to exhaustion yields every position scoring >= threshold exactly once and nothing else, for every block size and every interleaving, without panicking (every unwrap / index / overflow obligation discharged, including L < M, L = 0 and row counts near block multiples).',
+    },
     'C10': {
         'verus': ['rc'],
         'kani': [{'name': 'k_c10_complement_involution', 'kind': 'Kinf'}],
